@@ -174,6 +174,11 @@ impl IdMap {
             },
         )?;
 
+        // Write barrier: the record must be on disk before the meta page counts it.  Without it
+        // a power loss can persist the larger i2e_len over a missing (zeroed) record, and the
+        // next open fails with "non-dense internal id" while replaying the committed node.
+        pager.sync()?;
+
         self.i2e_len += 1;
         pager.set_i2e_len(self.i2e_len)?;
         pager.set_next_internal_id(self.next_internal_id())?;
